@@ -10,8 +10,9 @@ from concurrent.futures import ThreadPoolExecutor
 from . import tlc
 from .common import CPUS, MachineryError, chunks
 
-_REJECT = re.compile(r'^<<"REJECT", (-?\d+), "([^"]*)">>', re.M)
-_DONE = re.compile(r'^<<"DONE", (\d+)>>', re.M)
+# TLC pretty-prints tuples longer than 80 columns over several lines: match across whitespace/newlines
+_REJECT = re.compile(r'<<\s*"REJECT",\s*(-?\d+),\s*"((?:[^"\\]|\\.)*)"\s*>>')
+_DONE = re.compile(r'<<\s*"DONE",\s*(\d+)\s*>>')
 
 TRACE_CFG = "SPECIFICATION Spec\n"
 
@@ -57,7 +58,11 @@ def validate(module: str, events: list, workdir: str, *, shards: int = None, ext
         if run.rc != 0 or not done or int(done[-1]) != len(part):
             tail = "\n".join(run.out.splitlines()[-30:])
             raise MachineryError(f"trace validation by {module} did not complete (rc={run.rc}):\n{tail}")
-        for ident, clause in _REJECT.findall(run.out):
+        found = _REJECT.findall(run.out)
+        if len(found) != run.out.count('"REJECT"'):
+            raise MachineryError(f"unparsable REJECT line in the output of {module}: "
+                                 f"{run.out.count(chr(34) + 'REJECT' + chr(34))} printed, {len(found)} parsed")
+        for ident, clause in found:
             result.rejects.setdefault(int(ident), []).append(clause)
         result.events += len(part)
         result.states += run.distinct
